@@ -6,6 +6,9 @@ package sim
 func Minimise(sc *Scenario, fails func(*Scenario) bool) *Scenario {
 	cur := sc.Clone()
 	try := func(c *Scenario) bool {
+		if !ValidScenario(c) {
+			return false
+		}
 		if fails(c) {
 			cur = c
 			return true
@@ -197,4 +200,27 @@ func removeOp(sc *Scenario, i int) *Scenario {
 	}
 	c.Ops = ops
 	return c
+}
+
+// ValidScenario keeps minimisation inside the fault space the generators
+// draw from: black-hole faults need something that obliges progress.
+func ValidScenario(sc *Scenario) bool {
+	for _, f := range sc.Faults {
+		switch f.Kind {
+		case "silentFrom", "dropB2C", "dropC2B":
+			if sc.Cfg.Client == "reconnect" || sc.Cfg.Client == "retry" {
+				if sc.Cfg.PingIntervalUs == 0 && sc.Cfg.ResponseTimeoutUs == 0 {
+					return false
+				}
+				if f.Kind == "silentFrom" && sc.Cfg.PingIntervalUs == 0 && sc.Prop != "C18" {
+					return false
+				}
+			}
+		case "connackNever":
+			if sc.Cfg.Client == "reconnect" && sc.Cfg.TimeoutUs == 0 {
+				return false
+			}
+		}
+	}
+	return true
 }
